@@ -185,7 +185,7 @@ class Disagreement:
 
 
 def compare(impl, ref, malformed_after=None, max_states=400000,
-            stats=None):
+            stats=None, uncompressed=False):
     if malformed_after:
         ref.malformed_after = malformed_after
         malformed_after = None
@@ -196,6 +196,8 @@ def compare(impl, ref, malformed_after=None, max_states=400000,
     malformed_after = malformed_after or {}
     class_of, reps = rx.partition(
         impl.bytesets() | ref.bytesets() | set(malformed_after.values()))
+    if uncompressed:
+        reps = list(range(256))
     syms = rx.symbols(reps)
     start = ('pre', impl.initial(), ref.initial(), None, None)
     seen = {start: None}
